@@ -1,4 +1,5 @@
 """C09 Real-time evolution converges to the exact propagator for every scheme."""
+from vk.symx.harness import guarded
 import math
 
 import numpy as np
@@ -532,7 +533,7 @@ def check(run):
                 cases.append(("vmf_rhs", name, n, method, s, run.tier))
     run_cases(run, worker, cases)
     from props import C09_sym
-    C09_sym.prove(run)
+    guarded(run, C09_sym.prove)
     run.rule = ("models {spin+qn, electron-phonon, spin} with dense reference (dim <= 72/200) x 8 schemes x local solvers {krylov, RK45} x |H|dt in {0.1, 0.3, 1.0}; "
                 "ten RK tableaux rotated over seeds; split U(t) vs U(t/2)U(t/2); adaptive vs exact; TDVP-PS at bond limits 1,2,3 over 3 steps (norm, energy, limit); "
                 "random histories of 5 scheme switches; density-operator form; time-dependent H(t) for the RK schemes; the VMF right-hand side (func_vmf, captured through solve_ivp) vs the "
